@@ -193,6 +193,9 @@ def rename_one(rng, fns, classes, mode):
 
 
 def same(a, b):
+    # a rejected program: only the fact and the category are compared (the message carries a position)
+    if a.get("status") == "error" and a.get("cat") in ("Semantic", "Parse", "Lexical"):
+        return (b.get("status"), b.get("cat")) == (a.get("status"), a.get("cat"))
     ka = (a.get("status"), a.get("cat"), a.get("stdout") if a.get("status") == "ok" else lc.impl_err_kind(a.get("msg")))
     kb = (b.get("status"), b.get("cat"), b.get("stdout") if b.get("status") == "ok" else lc.impl_err_kind(b.get("msg")))
     return ka == kb
